@@ -26,6 +26,11 @@ def model_choice(handlers, error_id, generic):
 def run(ctx):
     import pytezos.rpc.errors  # noqa: registers the handlers
     from pytezos.rpc.node import RpcError
+    if 'rvtest.manager.unregistered_delegate' not in RpcError.__handlers__:
+        class _ThreeComponents(RpcError, error_id='rvtest.manager.unregistered_delegate'):
+            """harness-registered handler with a three-component name"""
+        class _FiveComponents(RpcError, error_id='proto.alpha.rvtest.deep.name'):
+            """harness-registered handler under a full identifier"""
     handlers = dict(RpcError.__handlers__)
     if not handlers:
         return ctx.inconc('no registered handlers')
@@ -48,6 +53,10 @@ def run(ctx):
         ids.add('%s.%s' % (c, n))                    # <category>.<name>
         for p in protos:
             ids.add('proto.%s.%s.%s' % (p, c, n))    # proto.<p>.<category>.<name>
+    # five components: decided only where rule 1 (full id) or rule 2 (id without `proto.<p>.`) already selects a class
+    extra = ['rvtest.manager.unregistered_delegate', 'proto.alpha.rvtest.deep.name']
+    for p_ in protos:
+        extra.append('proto.%s.rvtest.manager.unregistered_delegate' % p_)
     ids = sorted(ids)
     ctx.rule = ('every id of the forms <name>, <category>.<name>, proto.<p>.<name>, proto.<p>.<category>.<name> with '
                 'components drawn from all registered keys, their dotted components and unregistered names; error '
@@ -82,6 +91,16 @@ def run(ctx):
 
     for eid in ids:
         judge(eid, [])
+    for eid in extra:
+        want = handlers.get(eid) or handlers.get('.'.join(eid.split('.')[2:]))
+        try:
+            got = type(RpcError.from_errors([{'id': eid, 'kind': 'permanent'}]))
+        except Exception as e:
+            got = e
+        ctx.case((eid, 'five'), nontrivial=True)
+        ctx.count('from_errors_calls')
+        if got is not want:
+            ctx.violation('C27|wrong-class|noprefix-multi-component', 'id=%s expected=%s got=%r' % (eid, want.__name__, got), {'id': eid, 'prefix': []})
     for eid in ids[:: (7 if ctx.quick else 1)]:
         judge(eid, filler[:1])
         judge(eid, filler)
